@@ -17,6 +17,7 @@ from mloda.core.runtime.compute_framework_executor import ComputeFrameworkExecut
 from mloda.core.core.cfw_manager import CfwManager, MyManager
 from mloda.core.abstract_plugins.components.parallelization_modes import ParallelizationMode
 from mloda.core.runtime.flight.runner_flight_server import ParallelRunnerFlightServer
+from mloda.core.runtime.flight.flight_server import FlightServer
 from mloda.core.core.step.feature_group_step import FeatureGroupStep
 from mloda.core.core.step.join_step import JoinStep
 from mloda.core.core.step.transform_frame_work_step import TransformFrameworkStep
@@ -273,7 +274,27 @@ class ExecutionOrchestrator:
         """
         Joins all tasks (threads or processes) and terminates multiprocessing processes.
         """
-        self.worker_manager.join_all()
+        try:
+            self.worker_manager.join_all()
+        finally:
+            self._drop_uploaded_datasets()
+
+    def _drop_uploaded_datasets(self) -> None:
+        """
+        Removes the datasets this run uploaded to the flight server (they are keyed by the uuids of its compute frameworks).
+        Results were already downloaded into the result collection when their steps were processed.
+        """
+        if not self.location:
+            return
+
+        executor = getattr(self, "executor", None)
+        if executor is None or not executor.cfw_collection:
+            return
+
+        try:
+            FlightServer.drop_tables(self.location, {str(cfw_uuid) for cfw_uuid in executor.cfw_collection})
+        except Exception as e:
+            logger.error(f"Error dropping uploaded datasets: {e}")
 
     def add_to_result_data_collection(self, cfw: ComputeFramework, features: FeatureSet, step_uuid: UUID) -> None:
         """
